@@ -42,6 +42,10 @@ fn main() {
                 let sseed = seed.wrapping_mul(0x9E3779B97F4A7C15).wrapping_add(i as u64);
                 let mut rng = scen::Rng::new(sseed);
                 let beh = gens::generate(&prop, &tier, &facs, &mut rng, i);
+                // leave a note of the behaviour being executed: if the code under test takes the whole process
+                // down (abort, stack overflow) the driver can still name the behaviour that did it
+                let _ = std::fs::write(format!("{out}.cur"), serde_json::json!({"id": idbase + i as u64, "prop": prop,
+                    "sseed": sseed.to_string(), "cmds": beh}).to_string());
                 let mut it = scen::Interp::new(&facs, sseed);
                 it.run(beh.as_array().unwrap());
                 let (pname, gname) = match prop.strip_suffix("probe") {
@@ -60,6 +64,7 @@ fn main() {
                     lines += 1;
                 }
             }
+            let _ = std::fs::remove_file(format!("{out}.cur"));
             println!("scenarios={} lines={}", nscn, lines);
         }
         // replay --in FILE(jsonl of behaviours: {"prop":..,"cmds":[..]}) --seed N --reps R --out FILE
@@ -89,6 +94,8 @@ fn main() {
                         Some(x) if reps == 1 => x.parse().unwrap(),
                         _ => seed.wrapping_mul(0xD1B54A32D192ED03).wrapping_add((i * reps + r) as u64),
                     };
+                    let _ = std::fs::write(format!("{out}.cur"), serde_json::json!({"id": idbase + (i * reps + r) as u64,
+                        "prop": b["prop"], "sseed": sseed.to_string(), "cmds": b["cmds"]}).to_string());
                     let mut it = scen::Interp::new(&facs, sseed);
                     it.run(b["cmds"].as_array().unwrap());
                     let prop = b["prop"].as_str().unwrap_or("").to_string();
@@ -106,6 +113,7 @@ fn main() {
                     }
                 }
             }
+            let _ = std::fs::remove_file(format!("{out}.cur"));
             println!("scenarios={} lines={}", nscn, lines);
         }
         _ => {
